@@ -22,8 +22,8 @@ PROPERTY = "C17"
 LEVEL = "exploration"
 
 NAMES = ["Alpha", "Beta", "Gamma"]
-KINDS = ["int", "opt-int", "enum", "opt-enum", "list-int", "set-str", "private", "ref", "opt-ref", "list-ref", "set-ref", "type-ref", "str-forward-ref", "datetime", "opt-nested-fwd", "list-nested-fwd", "type-nested-fwd"]
-REFS = ("ref", "opt-ref", "list-ref", "set-ref", "type-ref", "str-forward-ref", "opt-nested-fwd", "list-nested-fwd", "type-nested-fwd")
+KINDS = ["int", "opt-int", "enum", "opt-enum", "list-int", "set-str", "private", "ref", "opt-ref", "list-ref", "set-ref", "type-ref", "str-forward-ref", "datetime", "opt-nested-fwd", "list-nested-fwd", "type-nested-fwd", "none-first-opt-ref", "pipe-opt-ref"]
+REFS = ("ref", "opt-ref", "list-ref", "set-ref", "type-ref", "str-forward-ref", "opt-nested-fwd", "list-nested-fwd", "type-nested-fwd", "none-first-opt-ref", "pipe-opt-ref")
 _counter = [0]
 
 
@@ -32,7 +32,7 @@ def build(spec):
     _counter[0] += 1
     modname = "verif_c17_model_%d_%d" % (os.getpid(), _counter[0])
     mod = types.ModuleType(modname)
-    mod.Shade, mod.Optional, mod.List, mod.Set, mod.Type = Shade, Optional, List, Set, Type
+    mod.Shade, mod.Optional, mod.List, mod.Set, mod.Type, mod.Union = Shade, Optional, List, Set, Type, typing.Union
     sys.modules[modname] = mod
     classes = []
     for i, (base, flds) in enumerate(spec):
@@ -43,6 +43,8 @@ def build(spec):
                 "int": int, "opt-int": Optional[int], "enum": Shade, "opt-enum": Optional[Shade], "list-int": List[int], "set-str": Set[str], "private": int, "datetime": datetime,
                 "ref": t, "opt-ref": "Optional[%s]" % t, "list-ref": "List[%s]" % t, "set-ref": "Set[%s]" % t, "type-ref": "Type[%s]" % t, "str-forward-ref": t,
                 # a quoted forward reference nested inside a wrapper (the annotation object is Optional[ForwardRef('T')], not a string)
+                # the same optional reference written with None first / with the | operator
+                "none-first-opt-ref": "Union[None, %s]" % t, "pipe-opt-ref": "%s | None" % t,
                 "opt-nested-fwd": Optional[t] if t else None, "list-nested-fwd": List[t] if t else None, "type-nested-fwd": Type[t] if t else None,
             }[kind]
             fs.append((("_" + fname) if kind == "private" else fname, ann, field(default=None)))
@@ -67,7 +69,7 @@ def expected(classes):
                 continue
             t = hints[f.name]
             origin, args = typing.get_origin(t), typing.get_args(t)
-            optional = origin is typing.Union and len(args) == 2 and type(None) in args
+            optional = origin in (typing.Union, types.UnionType) and len(args) == 2 and type(None) in args
             container = origin in (list, set, tuple, type)
             inner = ([a for a in args if a is not type(None)][0] if optional else args[0] if container else t)
             builtin = inner in (int, float, str, bool, datetime, type(None))
